@@ -691,6 +691,11 @@ func (v Int128Value) BitwiseRightShift(context ValueStaticTypeContext, other Int
 		panic(&NegativeShiftError{})
 	}
 	if !o.BigInt.IsUint64() {
+		// Shifting right by more than the bit size results in the sign:
+		// -1 for negative values, 0 otherwise
+		if v.BigInt.Sign() < 0 {
+			return NewInt128ValueFromInt64(context, -1)
+		}
 		return NewInt128ValueFromInt64(context, 0)
 	}
 
